@@ -6,6 +6,7 @@ package main
 
 import (
 	"fmt"
+	"strconv"
 	"strings"
 )
 
@@ -73,7 +74,8 @@ type hashCall struct {
 }
 
 type TermCtx struct {
-	tab    map[string]*Term
+	tab    map[termKey]*Term
+	consts map[[2]uint64]*Term
 	nextID int
 	vars   []*Term
 	hashes []*hashCall
@@ -83,7 +85,7 @@ type TermCtx struct {
 }
 
 func newTermCtx() *TermCtx {
-	c := &TermCtx{tab: map[string]*Term{}, heqMem: map[[2]int]*Term{}}
+	c := &TermCtx{tab: map[termKey]*Term{}, heqMem: map[[2]int]*Term{}, consts: map[[2]uint64]*Term{}}
 	c.tTrue = c.mk(&Term{op: opConst, w: 0, c: 1})
 	c.tFalse = c.mk(&Term{op: opConst, w: 0, c: 0})
 	return c
@@ -96,16 +98,38 @@ func mask(w int) uint64 {
 	return (uint64(1) << uint(w)) - 1
 }
 
+type termKey struct {
+	op         Op
+	w          int
+	c          uint64
+	name       string
+	hc         int
+	a0, a1, a2 int
+	rest       string
+}
+
 func (c *TermCtx) mk(t *Term) *Term {
-	var sb strings.Builder
-	fmt.Fprintf(&sb, "%d/%d/%d/%s", t.op, t.w, t.c, t.name)
+	k := termKey{op: t.op, w: t.w, c: t.c, name: t.name}
 	if t.hc != nil {
-		fmt.Fprintf(&sb, "/h%d", t.hc.id)
+		k.hc = t.hc.id
 	}
-	for _, a := range t.args {
-		fmt.Fprintf(&sb, ",%d", a.id)
+	switch len(t.args) {
+	case 0:
+	case 1:
+		k.a0 = t.args[0].id
+	case 2:
+		k.a0, k.a1 = t.args[0].id, t.args[1].id
+	case 3:
+		k.a0, k.a1, k.a2 = t.args[0].id, t.args[1].id, t.args[2].id
+	default:
+		k.a0, k.a1, k.a2 = t.args[0].id, t.args[1].id, t.args[2].id
+		b := make([]byte, 0, 8*len(t.args))
+		for _, a := range t.args[3:] {
+			b = strconv.AppendInt(b, int64(a.id), 36)
+			b = append(b, ',')
+		}
+		k.rest = string(b)
 	}
-	k := sb.String()
 	if e, ok := c.tab[k]; ok {
 		return e
 	}
@@ -126,7 +150,14 @@ func (c *TermCtx) Const(w int, v uint64) *Term {
 	if w == 0 {
 		return c.Bool(v != 0)
 	}
-	return c.mk(&Term{op: opConst, w: w, c: v & mask(w)})
+	v &= mask(w)
+	ck := [2]uint64{uint64(w), v}
+	if t, ok := c.consts[ck]; ok {
+		return t
+	}
+	t := c.mk(&Term{op: opConst, w: w, c: v})
+	c.consts[ck] = t
+	return t
 }
 
 func (c *TermCtx) Var(name string, w int) *Term {
